@@ -173,4 +173,114 @@ Aggregate(ro, pkg, shares, pkp, mode) ==
                    IN IF bad = <<>> THEN Err("InvalidSignature")
                       ELSE IF mode = "FirstCheater" THEN ErrC("InvalidSignatureShare", <<bad[1]>>)
                       ELSE ErrC("InvalidSignatureShare", bad)
+
+-----------------------------------------------------------------------------
+(* keys/dkg.rs and keys/refresh.rs (distributed variant)                     *)
+(*   r1s [id, coeffs, commit, min, max]   dkg::round1::SecretPackage        *)
+(*   r1p [commit, R, mu]                  dkg::round1::Package              *)
+(*   r2s [id, commit, share, min, max]    dkg::round2::SecretPackage        *)
+(*   r2p [share]                          dkg::round2::Package              *)
+(* `refresh` selects refresh_dkg_part1/2/shares, whose polynomials have a   *)
+(* zero constant term and whose stored commitments omit that identity entry.*)
+
+\* part1(id, n, t, rng).  Draws: non-zero secret a0 (not for refresh), t-1
+\* coefficients, non-zero proof nonce k.
+DkgPart1(ro, id, n, t, a0, coeffs, k, refresh) ==
+  IF ParamErr(n, t) # "none" THEN Err(ParamErr(n, t))
+  ELSE LET poly == <<(IF refresh THEN 0 ELSE a0)>> \o coeffs
+           commit == IF refresh THEN coeffs ELSE poly
+           phi == commit[1]          \* what the proof of knowledge commits to
+       IN IF IsIdent(phi) THEN Err("GroupError")
+          ELSE LET key == KeyHDKG(id, phi, k) IN
+            IF key \notin DOMAIN ro THEN Need(key, DomHDKG)
+            ELSE Ok([id |-> id, coeffs |-> poly, commit |-> commit, R |-> k,
+                     mu |-> Add(k, Mul(poly[1], ro[key])), min |-> t, max |-> n])
+
+\* proofs of knowledge are checked sender by sender in ascending order
+RECURSIVE PokScan(_,_,_,_)
+PokScan(ro, r1, ids, k) ==
+  IF k > Len(ids) THEN Ok([v |-> TRUE])
+  ELSE LET l == ids[k]
+           p == r1[l]
+       IN IF p.commit = << >> THEN Err("MissingCommitment")
+          ELSE IF IsIdent(p.commit[1]) \/ IsIdent(p.R) THEN Err("GroupError")
+          ELSE LET key == KeyHDKG(l, p.commit[1], p.R) IN
+            IF key \notin DOMAIN ro THEN Need(key, DomHDKG)
+            ELSE IF p.R # Sub(p.mu, Mul(ro[key], p.commit[1]))
+                 THEN ErrC("InvalidProofOfKnowledge", <<l>>)
+                 ELSE PokScan(ro, r1, ids, k + 1)
+
+\* part2(secret_package, round1_packages : id -> r1p)
+DkgPart2(ro, sec, r1, refresh) ==
+  IF Card(DOMAIN r1) # sec.max - 1 THEN Err("IncorrectNumberOfPackages")
+  ELSE IF ~refresh /\ sec.id \in DOMAIN r1 THEN Err("UnknownIdentifier")
+  ELSE IF \E l \in DOMAIN r1 : Len(r1[l].commit) + (IF refresh THEN 1 ELSE 0) # sec.min
+       THEN Err("IncorrectNumberOfCommitments")
+  ELSE LET pok == IF refresh THEN Ok([v |-> TRUE]) ELSE PokScan(ro, r1, Sorted(DOMAIN r1), 1) IN
+    IF Stop(pok) THEN pok
+    ELSE Ok([id |-> sec.id, own |-> EvalPoly(sec.coeffs, sec.id),
+             r2 |-> [l \in DOMAIN r1 |-> EvalPoly(sec.coeffs, l)],
+             commit |-> sec.commit, min |-> sec.min, max |-> sec.max])
+
+\* sum_commitments over a sequence of commitment vectors (ascending identifier
+\* order): the result has the first vector's length; a shorter later vector is
+\* an error, a longer one is silently truncated
+SumCommitments(cs) ==
+  IF cs = << >> THEN Err("IncorrectNumberOfCommitments")
+  ELSE LET len == Len(cs[1]) IN
+    IF \E k \in DOMAIN cs : Len(cs[k]) < len THEN Err("IncorrectNumberOfCommitments")
+    ELSE Ok([sum |-> [j \in 1..len |-> SumSeq([k \in DOMAIN cs |-> cs[k][j]])]])
+
+\* PublicKeyPackage::from_dkg_commitments(map id -> commitment)
+PkpFromDkg(cm) ==
+  LET ids == Sorted(DOMAIN cm)
+      s == SumCommitments([k \in DOMAIN ids |-> cm[ids[k]]])
+  IN IF ~s.ok THEN s ELSE PkpFromCommitment(DOMAIN cm, s.sum)
+
+\* shares are verified sender by sender in ascending order of the round-two map
+RECURSIVE ShareScan(_,_,_,_,_,_)
+ShareScan(r1, r2, me, ids, k, attributed) ==
+  IF k > Len(ids) THEN Ok([v |-> TRUE])
+  ELSE LET l == ids[k]
+           c == r1[l].commit
+       IN IF r2[l].share # EvalPoly(c, me)
+          THEN (IF attributed THEN ErrC("InvalidSecretShare", <<l>>) ELSE Err("InvalidSecretShare"))
+          ELSE IF c = << >> THEN Err("MissingCommitment")
+          ELSE ShareScan(r1, r2, me, ids, k + 1, attributed)
+
+\* part3(round2_secret_package, round1_packages, round2_packages)
+DkgPart3(sec, r1, r2) ==
+  IF Card(DOMAIN r1) # sec.max - 1 THEN Err("IncorrectNumberOfPackages")
+  ELSE IF sec.id \in DOMAIN r1 THEN Err("UnknownIdentifier")
+  ELSE IF sec.id \in DOMAIN r2 THEN Err("UnknownIdentifier")
+  ELSE IF Card(DOMAIN r1) # Card(DOMAIN r2) THEN Err("IncorrectNumberOfPackages")
+  ELSE IF \E i \in DOMAIN r1 : i \notin DOMAIN r2 THEN Err("IncorrectPackage")
+  ELSE LET scan == ShareScan(r1, r2, sec.id, Sorted(DOMAIN r2), 1, TRUE) IN
+    IF ~scan.ok THEN scan
+    ELSE LET share == Add(SumOver(DOMAIN r2, LAMBDA l : r2[l].share), sec.share)
+             cm == [i \in DOMAIN r1 \cup {sec.id} |-> IF i = sec.id THEN sec.commit ELSE r1[i].commit]
+             pk == PkpFromDkg(cm)
+         IN IF ~pk.ok THEN pk
+            ELSE Ok([kp |-> [id |-> sec.id, share |-> share, vs |-> share, vk |-> pk.vk, min |-> sec.min],
+                     pkp |-> [vs |-> pk.vs, vk |-> pk.vk, min |-> pk.min]])
+
+\* refresh_dkg_shares(round2_secret_package, r1, r2, old_pkp, old_kp)
+RefreshDkgShares(sec, r1, r2, opkp, okp) ==
+  IF sec.min # okp.min THEN Err("InvalidMinSigners")
+  ELSE LET r1x == [l \in DOMAIN r1 |-> [r1[l] EXCEPT !.commit = <<0>> \o @]]
+           ownc == <<0>> \o sec.commit
+       IN
+    IF Card(DOMAIN r1) # sec.max - 1 THEN Err("IncorrectNumberOfPackages")
+    ELSE IF Card(DOMAIN r1) # Card(DOMAIN r2) THEN Err("IncorrectNumberOfPackages")
+    ELSE IF \E i \in DOMAIN r1 : i \notin DOMAIN r2 THEN Err("IncorrectPackage")
+    ELSE LET scan == ShareScan(r1x, r2, sec.id, Sorted(DOMAIN r2), 1, FALSE) IN
+      IF ~scan.ok THEN scan
+      ELSE LET share == Add(Add(SumOver(DOMAIN r2, LAMBDA l : r2[l].share), sec.share), okp.share)
+               cm == [i \in DOMAIN r1 \cup {sec.id} |-> IF i = sec.id THEN ownc ELSE r1x[i].commit]
+               zp == PkpFromDkg(cm)
+           IN IF ~zp.ok THEN zp
+              ELSE IF \E i \in DOMAIN zp.vs : i \notin DOMAIN opkp.vs THEN Err("UnknownIdentifier")
+              ELSE Ok([kp |-> [id |-> sec.id, share |-> share, vs |-> share, vk |-> opkp.vk, min |-> sec.min],
+                       pkp |-> [vs |-> [i \in DOMAIN zp.vs |-> Add(zp.vs[i], opkp.vs[i])],
+                                vk |-> opkp.vk, min |-> sec.min]])
 =============================================================================
